@@ -14,6 +14,8 @@ import (
 func init() {
 	register(&core.Profile{Name: "c06-round-trip", Property: "C06", Weight: 2, Run: runC06Tour,
 		Doc: "2-4 chains; an NFT (class from the adversarial set, incl. names with '/') or an MT amount is sent away over a route of 1-3 hops with or without relay chains and returned hop by hop by an honest relayer, after unrelated traffic; the final receiver on the origin chain must hold it in its original class/id, every intermediate voucher must be gone"})
+	register(&core.Profile{Name: "c06-round-trip-lookalike-chains", Property: "C06", Weight: 1, Run: withLookalikeChains(runC06Tour),
+		Doc: "c06-round-trip in a world whose chain names are suffixes / prefixes of one another"})
 	register(&core.Profile{Name: "c06-refund", Property: "C06", Weight: 2, Run: runC06Refund,
 		Doc: "2-4 chains; transfers (native assets and vouchers, direct and relayed) that fail on the receiving side (invalid receiver, relay chain refusing by rule, zero MT amount) are acknowledged with an error; after the ack is processed the sender's holdings equal the snapshot taken before the send and the receiving chain holds nothing of it"})
 }
@@ -441,6 +443,21 @@ func runC06Refund(c *core.Ctx) {
 		found, succ := lastAckSuccess(e, sentBefore)
 		if !found {
 			w.Stats.Inc("refund-not-acknowledged")
+			// an honest relayer offered the error acknowledgement to the sending chain and it was
+			// refused every time: the sender never gets back what left
+			for _, s := range e.Sent[sentBefore:] {
+				if s.Item == nil || s.Item.Kind != scen.KAck || s.Mut != "" || s.Result == nil || s.Result.OK() || s.Target != s.Item.P.SourceChain || s.Target != n.Name {
+					continue
+				}
+				if succ, ok := IsSuccessAck(s.Item.Ack); ok && !succ {
+					kind := "native"
+					if strings.HasPrefix(what, "NFT tibc-") || strings.Contains(what, "MT tibc-") {
+						kind = "voucher"
+					}
+					c.Violate("C06/refund/error-ack-refused-by-sender/"+kind, "%s sent from %s to %s via %q was answered with an error acknowledgement, but %s refuses to process it (code %d: %s): the sender is never refunded",
+						what, n.Name, d.Name, relay, n.Name, s.Result.Code, world.Short(s.Result.Log, 160))
+				}
+			}
 			continue
 		}
 		if succ {
